@@ -229,6 +229,11 @@ def m_future_poll(it, a, ty, callee):
     recv = a[0]
     p = recv.fields[0] if isinstance(recv, Adt) and recv.ty == PIN else recv
     target = it.load(p) if isinstance(p, Ptr) else p
+    if isinstance(target, Adt) and target.ty == PIN:          # a stored `Pin<Box<dyn Future>>`
+        target = target.fields[0]
+        if isinstance(target, Ptr):
+            p = target
+            target = it.load(p)
     if isinstance(target, Adt) and target.ty == 'Box':
         p = box_ptr(target)
         target = it.load(p)
@@ -238,6 +243,9 @@ def m_future_poll(it, a, ty, callee):
         return m_shutdown_poll(it, p, a[1])
     if isinstance(target, NextFut):
         return m_futures_unordered_poll_next(it, [target.stream, a[1]], ty, callee)
+    if hasattr(target, 'rx'):
+        from .env import m_recv_poll
+        return m_recv_poll(it, [p] + list(a[1:]), ty, callee)
     if hasattr(target, 'chan'):
         from .env import m_send_poll
         return m_send_poll(it, [p] + list(a[1:]), ty, callee)
@@ -310,6 +318,63 @@ class NextFut(Model):
 
 def m_stream_next(it, a, ty, callee):
     return NextFut(a[0])
+
+
+class SelectNextSomeFut(Model):
+    """futures::stream::SelectNextSome: Ready(item) when the stream yields one, otherwise Pending"""
+    __slots__ = ('stream',)
+
+    def __init__(self, stream):
+        self.stream = stream
+
+
+def m_select_next_some(it, a, ty, callee):
+    return SelectNextSomeFut(a[0])
+
+
+def _stream_poll_next(it, stream_ty, stream_ptr, cx):
+    while isinstance(it.load(stream_ptr), Ptr):
+        stream_ptr = it.load(stream_ptr)
+    if stream_ty.startswith('futures::stream::FuturesUnordered<'):
+        return m_futures_unordered_poll_next(it, [stream_ptr, cx], None, '')
+    return it.call('<%s as futures::Stream>::poll_next' % stream_ty, [Adt(PIN, 0, [stream_ptr]), cx], None)
+
+
+def m_next_poll(it, a, ty, callee):
+    """<Next<'_, S> as Future>::poll: one poll of S"""
+    m = re.match(r"^<futures::stream::Next<'_, (.*)> as (?:std::future|futures)::Future>::poll$", callee, re.S)
+    p = a[0].fields[0] if isinstance(a[0], Adt) and a[0].ty == PIN else a[0]
+    fut = it.load(p)
+    return _stream_poll_next(it, m.group(1), fut.stream, a[1])
+
+
+def m_select_next_some_poll(it, a, ty, callee):
+    m = re.match(r"^<futures::stream::SelectNextSome<'_, (.*)> as (?:std::future|futures)::Future>::poll$", callee, re.S)
+    p = a[0].fields[0] if isinstance(a[0], Adt) and a[0].ty == PIN else a[0]
+    fut = it.load(p)
+    r = _stream_poll_next(it, m.group(1), fut.stream, a[1])
+    POLL = 'std::task::Poll'
+    if r.variant == 0 and r.fields[0].variant == 1:
+        return Adt(POLL, 0, [r.fields[0].fields[0]])
+    return Adt(POLL, 1, ())
+
+
+class PollFnM(Model):
+    """std::future::PollFn: polling it calls the closure"""
+    __slots__ = ('closure',)
+
+    def __init__(self, closure):
+        self.closure = closure
+
+
+def m_poll_fn(it, a, ty, callee):
+    return PollFnM(a[0])
+
+
+def m_poll_fn_poll(it, a, ty, callee):
+    p = a[0].fields[0] if isinstance(a[0], Adt) and a[0].ty == PIN else a[0]
+    fut = it.load(p)
+    return it.call_value(fut.closure, [a[1]], ty)
 
 
 def poll_value(it, fut_ptr, cx):
@@ -385,9 +450,15 @@ def install(it):
     A = it.add_model
     A(r'(?:std|core)::slice::<impl \[u8\]>::to_vec', m_to_vec)
     A(r'bytes::Bytes::to_vec', m_to_vec)
-    A(r'<futures::stream::FuturesUnordered<.*> as futures::StreamExt>::next', m_stream_next)
+    A(r'<.* as futures::StreamExt>::next', m_stream_next)
     A(r'<futures::stream::FuturesUnordered<.*> as futures::Stream>::poll_next', m_futures_unordered_poll_next)
-    A(r"<futures::stream::Next<'_, .*> as (?:std::future|futures)::Future>::poll", m_future_poll)
+    A(r"<futures::stream::Next<'_, .*> as (?:std::future|futures)::Future>::poll", m_next_poll)
+    A(r'<.* as futures::StreamExt>::select_next_some', m_select_next_some)
+    A(r"<futures::stream::SelectNextSome<'_, .*> as (?:std::future|futures)::Future>::poll", m_select_next_some_poll)
+    A(r'std::future::poll_fn::<.*>', m_poll_fn)
+    A(r'<std::future::PollFn<.*> as (?:std::future|futures)::Future>::poll', m_poll_fn_poll)
+    A(r'tokio::macros::support::poll_budget_available', lambda it, a, ty, c: Adt('std::task::Poll', 0, [UNIT]))
+    A(r'tokio::macros::support::thread_rng_n', lambda it, a, ty, c: Int(int(it.params.get('select_start', 0)) % max(1, a[0].v), 32))
     A(r'<.* as tokio::io::AsyncWriteExt>::shutdown', m_shutdown)
     A(r"<tokio::io::util::shutdown::Shutdown<'_, .*> as (?:std::future|futures)::Future>::poll", m_future_poll)
     A(r'<.* as std::future::IntoFuture>::into_future', lambda it, a, ty, c: a[0])
@@ -409,7 +480,9 @@ def install(it):
     A(r'std::boxed::Box::<.*>::pin', m_box_pin)
     A(r'<\{async .*\} as (?:std::future|futures)::Future>::poll', m_future_poll)
     A(r'<impl std::future::Future<.*> as (?:std::future|futures)::Future>::poll', m_future_poll)
+    A(r'<std::pin::Pin<std::boxed::Box<dyn (?:std::future|futures)::Future<.*> as (?:std::future|futures)::Future>::poll', m_future_poll)
     A(r'bytes::BytesMut::zeroed', m_zeroed)
+    A(r'bytes::(BytesMut|Bytes)::clear', lambda it, a, ty, c: (it.store(a[0], byte_seq(())), UNIT)[1])
     A(r'bytes::BytesMut::resize', m_resize)
     A(r'bytes::(BytesMut|Bytes)::(new|with_capacity)', m_new)
     A(r'<bytes::(BytesMut|Bytes) as std::ops::Deref(Mut)?>::deref(_mut)?', m_deref)
